@@ -94,6 +94,7 @@ func C19(h ProxyHooks) func(*hx.Ctx) *hx.Outcome {
 		s.ChooseStrategy()
 		s.EnableStmt(rt.PkgReportFeed)
 		s.SetStarveKey([]string{"proxy-parser", "proxy-queue-updater", "tcpprox.go", "ntrip-client", "caster"}[t.D(5)])
+		fineGrained(c, s, o)
 		s.Budget = 60*(len(up)+len(down)+64) + 40000
 		// proxy side conns and their peers
 		// bounded TCP buffers (a write blocks while the peer does not read) and
